@@ -1527,8 +1527,11 @@ impl<R: std::io::Seek> Decoder<R> {
                         ..
                     }) => {
                         assert!(*sample_offset <= sample);
-                        self.reader
-                            .seek(SeekFrom::Start(frames_start + byte_offset))?;
+                        self.reader.seek(SeekFrom::Start(
+                            frames_start
+                                .checked_add(*byte_offset)
+                                .ok_or(Error::InvalidSeekTablePoint)?,
+                        ))?;
                         self.current_sample = *sample_offset;
                         Ok(*sample_offset)
                     }
